@@ -12,7 +12,7 @@ GROUP = "fs"
 class Env:
     def __init__(self, run, propfile, need_release=False):
         self.run = run
-        self.tmp = os.path.join(V.BUILD, "tmp", run.pid)
+        self.tmp = os.path.join(V.BUILD, "tmp", "%s-%d" % (run.pid, os.getpid()))
         shutil.rmtree(self.tmp, ignore_errors=True)
         os.makedirs(self.tmp)
         self.gate = V.proof_gate(GROUP, propfile, force=False)
